@@ -55,6 +55,14 @@ var closureUniverses = []closureUniverse{
 	)},
 	{"numeric-u16", "u16", u16keys(0x0000, 0x0001, 0x00ff, 0x0100, 0x7fff, 0x8000, 0x80ff, 0xff00, 0xffff)},
 	{"collation-case-accent", "coll:und:string", bs("a", "A", "á", "ab", "aB", "b", "", "ábc", "abc")},
+	{"node4-node16-boundary-bytes", "alpha:bytes", bs(
+		"stem\x01", "stem\x7f", "stem\x80", "stem\xfe", "stem\xff", "stem\x02x", "stem\x02y", "stem", "ste",
+	)},
+	{"float64-specials", "f64", [][]byte{
+		rawOf(0x7ff8000000000001), rawOf(0xfff0000000000000), rawOf(0x8000000000000000), rawOf(0), rawOf(0x3ff0000000000000),
+		rawOf(0xbff0000000000000), rawOf(0x7ff0000000000000), rawOf(1), rawOf(0x8000000000000001),
+	}},
+	{"int8-signs", "i8", [][]byte{rawOf(0x80), rawOf(0xff), rawOf(0), rawOf(1), rawOf(0x7f), rawOf(0xfe), rawOf(0x81), rawOf(2)}},
 	{"compound-u8-str", "cmp:u8,str", [][]byte{
 		append(rawOf(1), "ab"...), append(rawOf(1), "ac"...), append(rawOf(1), ""...), append(rawOf(2), "ab"...),
 		append(rawOf(0x80), "abcdefghijklmn1"...), append(rawOf(0x80), "abcdefghijklmn2"...), append(rawOf(0x80), "abcdefghijkX"...), append(rawOf(0xff), ""...),
